@@ -61,7 +61,11 @@ def check_hdc(inputs, book):
     if reached:
         fmin = float(f[region].min())
         if not abs(float(con.fm) - fmin) <= 1e-12 * fmin:
-            book.sample({"label": inputs.get("label"), "note": "reported fm does not match the observed region (C02 clause); scenario skipped here"})
+            # the region recomputed with the contour's OWN cell_averaged_joint_pdf / cumsum_biggest_until is not the one the
+            # coordinates were taken from (on the unchanged library the two never differ): the coordinates cannot be the
+            # boundary cells of the enclosed region
+            ev(False, "coordinates-exact", f"the contour reports fm = {float(con.fm)!r}, but the region of content 1-alpha determined by its own cell probabilities "
+               f"has least dense cell {fmin!r}: the coordinates were taken from another region", "region-used")
             return
     B = A.boundary_mask(region)
     comps_b = A.components(B)
@@ -276,6 +280,16 @@ def run(tier, seed):
     scen = _scenarios(tier, seed)
     for sc in scen:
         check(sc, book)
+    # history: the coordinates of a contour do not depend on contours computed earlier from the same model object
+    from . import C02 as _c02
+    n_hist = 0
+    for sc in scen:
+        if n_hist >= (3 if tier == "quick" else 12):
+            break
+        if sc["kind"] == "hdc" and A.hdc_decode_limits(sc) is not None and A.hdc_decode_deltas(sc) is not None and len(sc["recipe"]["dims"]) == 2:
+            _c02.check_history(sc, book, prop="C15", clause="the coordinates are the boundary cells of the enclosed region of THIS model, alpha and grid "
+                                                              "(the same whether or not other contours were computed from the model object before)")
+            n_hist += 1
     n_hdc = sum(1 for s in scen if s["kind"] == "hdc")
     return {
         "evaluations": book.evaluations,
@@ -304,5 +318,9 @@ def run(tier, seed):
 
 def replay(doc):
     book = A.Book()
-    check(doc["inputs"], book)
+    if doc["case"].endswith("/history"):
+        from . import C02 as _c02
+        _c02.check_history(doc["inputs"], book, prop="C15")
+    else:
+        check(doc["inputs"], book)
     return not any(f["case"] == doc["case"] for f in book.failures)
